@@ -495,6 +495,8 @@ Definition judge (p : str) (sfx : option str) (rules : list rule) (expires : lis
            else if str_eqb p (bytes "C15") then v15
            else if str_eqb p (bytes "C18") then v18
            else if str_eqb p (bytes "C01") then v01
+           else if str_eqb p (bytes "C02") then c02_check rules q (cobs_log o)
+           else if str_eqb p (bytes "C03") then c03_check rules q (cobs_log o)
            else if str_eqb p (bytes "C11") then v11
            else v_ok in
   (v, mkW now sc' store' (cobs_disk o) forbidden' unsure').
